@@ -138,7 +138,9 @@ def tlc(module, cfg, workers=None, timeout=600, files=None, simulate=None, extra
         with open(os.path.join(wd, cfgname), "w") as f:
             f.write(cfg)
     md = tempfile.mkdtemp(prefix="md-", dir=wd)
-    jopts = "-Xss%s" % xss
+    jopts = "-Xss%s -Djava.io.tmpdir=%s" % (xss, md)     # TLC's own temp files go where they are cleaned up
+    if heap is None and (workers == 1):
+        heap = "6g"          # trace validators run many at a time; the default (25%% of RAM each) over-commits the machine
     if heap:
         jopts += " -Xmx%s" % heap
     if deque:
